@@ -55,9 +55,10 @@ func sockPair() (*net.UnixConn, *net.UnixConn, func(), error) {
 }
 
 type recInst struct {
-	id  int
-	mu  sync.Mutex
-	log []string
+	id   int
+	mu   sync.Mutex
+	log  []string
+	slow time.Duration // DrainListeners takes this long and logs its end too
 }
 
 func (r *recInst) add(s string) { r.mu.Lock(); r.log = append(r.log, s); r.mu.Unlock() }
@@ -71,7 +72,13 @@ func (r *recInst) take() []string {
 func (r *recInst) ID() int            { return r.id }
 func (r *recInst) ParentID() int      { return 0 }
 func (r *recInst) ShutdownAdmin()     { r.add("a:ShutdownAdmin") }
-func (r *recInst) DrainListeners()    { r.add("a:DrainListeners") }
+func (r *recInst) DrainListeners() {
+	r.add("a:DrainListeners")
+	if r.slow > 0 {
+		time.Sleep(r.slow)
+		r.add("e:DrainListeners")
+	}
+}
 func (r *recInst) ShutdownLocalConf() { r.add("a:ShutdownLocalConf") }
 func (r *recInst) Shutdown()          { r.add("a:Shutdown") }
 
@@ -125,6 +132,68 @@ func (*c17) Exec(op string) string {
 			return "sockerr"
 		}
 		return hx.Hex(buf[:n])
+	case len(f) == 2 && f[0] == "c17.pipe":
+		// c17.pipe <types>   one child that does not wait for the replies: it sends its next request 20 ms after the previous one, while a
+		// requested drain takes 90 ms (logged at its beginning and its end)  -> acts=<actions in order> replies=<reply types in arrival order>
+		c17seq++
+		inst := &recInst{id: 900000 + os.Getpid()%50000*10 + c17seq%10 + c17seq*100000, slow: 90 * time.Millisecond}
+		hotrestart.VerifSetKill(func(pid int, sig syscall.Signal) error { inst.add("a:kill"); return nil })
+		r, err := hotrestart.New(inst)
+		if err != nil {
+			return "sockerr " + err.Error()
+		}
+		defer r.Shutdown()
+		conn, err := net.DialUnix("unix", nil, &net.UnixAddr{Name: hotrestart.VerifSocketName(inst.id), Net: "unix"})
+		if err != nil {
+			return "sockerr " + err.Error()
+		}
+		defer conn.Close()
+		var types []int
+		for _, s := range strings.Split(f[1], ",") {
+			t, err := strconv.Atoi(s)
+			if err != nil || t < 0 || t > 255 || t == 7 {
+				return "bad-op"
+			}
+			types = append(types, t)
+		}
+		var rmu sync.Mutex
+		var replies []string
+		done := make(chan struct{})
+		go func() {
+			defer close(done)
+			buf := make([]byte, 4096)
+			for len(replies) < len(types) {
+				conn.SetReadDeadline(time.Now().Add(1500 * time.Millisecond))
+				n, err := conn.Read(buf)
+				if err != nil {
+					return
+				}
+				// replies are 3-byte headers with a 2-byte payload here; several may arrive in one read
+				for off := 0; off+3 <= n; {
+					l := int(buf[off+1])<<8 | int(buf[off+2])
+					rmu.Lock()
+					replies = append(replies, fmt.Sprintf("r:%d", buf[off]))
+					rmu.Unlock()
+					off += 3 + l
+				}
+			}
+		}()
+		for i, t := range types {
+			if i > 0 {
+				// (a stream socket: two unread frames would be read as one — at most one request waits behind a drain)
+				if i >= 2 && types[i-2] == 5 {
+					time.Sleep(110 * time.Millisecond)
+				} else {
+					time.Sleep(20 * time.Millisecond)
+				}
+			}
+			conn.Write(append([]byte{byte(t), 0, 2}, '{', '}'))
+		}
+		<-done
+		time.Sleep(20 * time.Millisecond)
+		rmu.Lock()
+		defer rmu.Unlock()
+		return "acts=" + orDash(strings.Join(inst.take(), ",")) + " replies=" + orDash(strings.Join(replies, ","))
 	case len(f) == 2 && f[0] == "c17.seq":
 		c17seq++
 		inst := &recInst{id: 900000 + os.Getpid()%50000*10 + c17seq%10 + c17seq*100000}
@@ -277,6 +346,18 @@ func (*c17) Gen(r *hx.Run) {
 		if t%5 == 0 {
 			r.Do(fmt.Sprintf("c17.seq 1,%d,5", t), true, "seq-every-type")
 		}
+	}
+	// a child that does not wait for the replies, with a slow drain
+	for _, s := range []string{"5,1", "5,3,1", "1,5,3", "5,5,1", "3,5,200,1", "5"} {
+		r.Do("c17.pipe "+s, true, "pipe")
+	}
+	for i := 0; i < r.N(4, 80); i++ {
+		n := 2 + rng.Intn(4)
+		var ts []string
+		for j := 0; j < n; j++ {
+			ts = append(ts, []string{"1", "3", "5", "5", "9", "200"}[rng.Intn(6)])
+		}
+		r.Do("c17.pipe "+strings.Join(ts, ","), true, "pipe")
 	}
 	// the canonical hand-over
 	r.Do("c17.seq 1,5,7", true, "seq-canonical")
